@@ -1,5 +1,6 @@
 #include "seams.hpp"
 #include <link.h>
+#include <pthread.h>
 #include <sys/mman.h>
 #include <ucontext.h>
 #include <unistd.h>
@@ -213,8 +214,20 @@ static void emu_cpuid(const CpuModel &m, uint32_t leaf, uint32_t sub, uint32_t r
         if (sub == 0) { r[0] = 0; r[1] = (1u << 3) | (1u << 8) | (1u << 9); if (m.avx2) r[1] |= 1u << 5; r[2] = 0x40; r[3] = 0x400; }
         else { r[1] = m.l7_other_ebx; }
         break;
+    // the leaves below have nothing to do with SIMD support; they carry the values of real parts so that a probe which
+    // looks at the wrong leaf (or is answered with the highest basic leaf for an out-of-range one) sees realistic bits
+    case 2: r[0] = 0x00feff01; r[1] = 0x00f0b2ff; r[2] = 0; r[3] = 0x00ca0000; break;                 // cache descriptors
+    case 4: if (sub < 4) { r[0] = 0x1c004121 + (sub << 5); r[1] = 0x01c0003f; r[2] = 0x3f << sub; r[3] = 0; } break;   // cache parameters
+    case 5: r[0] = 0x40; r[1] = 0x40; r[2] = 3; r[3] = 0x11142120; break;                             // MONITOR/MWAIT
+    case 6: r[0] = 0x27f7; r[1] = 2; r[2] = 9; r[3] = 0; break;                                       // thermal and power
+    case 0xa: r[0] = 0x07300404; r[1] = 0; r[2] = 0; r[3] = 0x603; break;                             // performance monitoring
+    case 0xb: r[0] = sub == 0 ? 1 : sub == 1 ? 4 : 0; r[1] = sub == 0 ? 2 : sub == 1 ? 8 : 0; r[2] = sub < 2 ? ((sub + 1) << 8) | sub : sub; r[3] = 0; break;
     case 0xd:
-        if (sub == 0) { r[0] = (uint32_t)m.xcr0; r[3] = (uint32_t)(m.xcr0 >> 32); r[1] = r[2] = 832; }
+        // sub-leaf 0 reports the state components the PROCESSOR supports (x87, SSE, and AVX if it has AVX) - not what the
+        // operating system enabled in XCR0, which only XGETBV tells
+        if (sub == 0) { r[0] = m.avx ? 7 : 3; r[3] = 0; r[1] = (m.xcr0 & 4) ? 832 : 576; r[2] = m.avx ? 832 : 576; }
+        else if (sub == 1) { r[0] = 1; }
+        else if (sub == 2 && m.avx) { r[0] = 256; r[1] = 576; }
         break;
     default: break;
     }
@@ -387,27 +400,42 @@ void install_crash_handlers() {
     sigaction(SIGFPE, &sa, nullptr);
 }
 
-// Liveness ("every call returns"): the library has no clock, so the budget is wall time of the host, generous enough
-// (seconds for calls that take microseconds) that only a genuine hang can exhaust it.
+// Liveness ("every call returns"): the library has no clock, so the budget is host time, generous enough (CPU-seconds
+// for calls that take microseconds) that only a genuine hang can exhaust it.  Two timers: CPU time of this process
+// (ITIMER_VIRTUAL; a busy loop is caught after g_wd_limit CPU-seconds however loaded the machine is, and a starved
+// worker is never mistaken for a hung one) and wall time as a back-stop for a call that blocks without burning CPU.
 #include <sys/time.h>
-static int g_wd_limit = 8; static uint64_t g_wd_last = ~0ULL; static int g_wd_stuck = 0;
-static void on_alarm(int, siginfo_t *, void *ucv) {
-    if (!g_in_lib) { g_wd_stuck = 0; g_wd_last = ~0ULL; return; }
-    if (g_call_seq != g_wd_last) { g_wd_last = g_call_seq; g_wd_stuck = 0; return; }
-    if (++g_wd_stuck < g_wd_limit) return;
-    g_wd_stuck = 0; g_wd_last = ~0ULL;
+struct WdState { int limit; uint64_t last = ~0ULL; int stuck = 0; };
+static WdState g_wd_cpu{3}, g_wd_wall{120};
+int g_wd_timeouts = 0;          // how many calls the watchdog has ended in this process
+static void on_alarm(int sig, siginfo_t *, void *ucv) {
+    WdState &w = sig == SIGVTALRM ? g_wd_cpu : g_wd_wall;
+    if (!g_in_lib) { w.stuck = 0; w.last = ~0ULL; return; }
+    if (g_call_seq != w.last) { w.last = g_call_seq; w.stuck = 0; return; }
+    if (++w.stuck < w.limit) return;
+    g_wd_cpu.stuck = g_wd_wall.stuck = 0; g_wd_cpu.last = g_wd_wall.last = ~0ULL;
+    ++g_wd_timeouts;
     ucontext_t *uc = (ucontext_t *)ucv;
     g_crash.sig = SIGALRM; g_crash.addr = 0; g_crash.pc = (uintptr_t)uc->uc_mcontext.gregs[REG_RIP];
-    g_crash.where = "the call did not return within the watchdog budget: hang, livelock or runaway loop";
+    g_crash.where = sig == SIGVTALRM ? "the call did not return within the watchdog budget of CPU time: runaway loop or livelock"
+                                     : "the call did not return within the watchdog budget of wall time: it blocks";
     siglongjmp(g_crash_jmp, 1);
 }
-void install_watchdog(int seconds) {
-    g_wd_limit = seconds < 2 ? 2 : seconds;
+static void arm_watchdog_timers() {
+    struct itimerval it; it.it_interval.tv_sec = 1; it.it_interval.tv_usec = 0; it.it_value = it.it_interval;
+    setitimer(ITIMER_VIRTUAL, &it, nullptr);
+    setitimer(ITIMER_REAL, &it, nullptr);
+}
+void install_watchdog(int cpu_seconds) {
+    // interval timers are NOT inherited across fork(): every worker re-arms its own
+    static bool registered = false; if (!registered) { registered = true; pthread_atfork(nullptr, nullptr, arm_watchdog_timers); }
+    g_wd_cpu.limit = cpu_seconds < 2 ? 2 : cpu_seconds;
+    g_wd_wall.limit = std::max(120, 4 * g_wd_cpu.limit);
     struct sigaction sa; memset(&sa, 0, sizeof sa);
     sa.sa_sigaction = on_alarm; sa.sa_flags = SA_SIGINFO | SA_NODEFER | SA_RESTART; sigemptyset(&sa.sa_mask);
     sigaction(SIGALRM, &sa, nullptr);
-    struct itimerval it; it.it_interval.tv_sec = 1; it.it_interval.tv_usec = 0; it.it_value = it.it_interval;
-    setitimer(ITIMER_REAL, &it, nullptr);
+    sigaction(SIGVTALRM, &sa, nullptr);
+    arm_watchdog_timers();
 }
 
 void seams_init() {
@@ -416,7 +444,7 @@ void seams_init() {
     g_handles.init();
     SimCPU::install();
     install_crash_handlers();
-    install_watchdog(8);
+    install_watchdog(3);
 }
 
 // ================================================================== determinism of addresses
